@@ -182,3 +182,24 @@ Proof.
   { eapply cfg_inv_step; eauto. } { eapply all_twf_step; eauto. }
   exists ce. repeat (split; auto).
 Qed.
+
+(** corollary: storage that holds a complete bundle with a certificate that is not due from the
+    start -- nobody who touches that name ever enters the issuer *)
+Theorem no_issue_on_fresh_storage cs st n L ce es s :
+  canon0 n L cs ->
+  st (SK n KKey) <> None -> st (SK n KCrt) = Some (VCrt ce) -> st (SK n KMeta) <> None -> c_due ce = false ->
+  runs (truthful n) (init_state cs st) es s ->
+  sto (sh s) (SK n KCrt) = Some (VCrt ce) /\
+  Forall (fun e => forall i, e_op e = OIssS i -> forall c, nth_error cs (e_tid e) = Some c -> ~ touches n c) es.
+Proof.
+  intros H0 Hk Hc Hm Hd R.
+  assert (HC : cfg_inv cs (init_state cs st)).
+  { intros t0 th0 Ht0. unfold thread_at, init_state in Ht0; simpl in Ht0. rewrite nth_error_map in Ht0.
+    destruct (nth_error cs t0); simpl in Ht0; inversion Ht0; subst; auto. }
+  assert (HS : Saved n ce (init_state cs st)).
+  { unfold Saved; simpl. repeat (split; auto). intros t th Ht _. apply unlocked_quiet.
+    unfold thread_at, init_state in Ht; simpl in Ht. rewrite nth_error_map in Ht.
+    destruct (nth_error cs t) as [c|]; simpl in Ht; inversion Ht; subst. simpl.
+    unfold entry, after_pre. destruct (c_prog c); simpl; auto; destruct (c_chk c); auto. }
+  destruct (saved_runs n L cs ce _ _ _ R H0 HC (all_twf_init cs st) HS) as ((_ & Hc' & _) & HF). auto.
+Qed.
